@@ -171,10 +171,79 @@ let sk_run_hist (c : case) : string =
     go k3 (List.filter (fun o -> o <> "") (split_on '!' (get c "ops")));
     Buffer.contents buf
 
+(* ---- histories on a shape loaded from a sample file: the model starts from the implementation's
+        dump of the loaded state (C++ side: op "file"), the NiSkinData weights come as exact binary
+        fractions m*2^e ---- *)
+let sk_pow2 (e : int) : n = N.pow (n_of_int 2) (n_of_int e)
+let sk_q_of_me (m : string) (e : int) : q =
+  let mz = z_of_string m in
+  if e >= 0 then { qnum = Z.mul mz (Z.of_N (sk_pow2 e)); qden = XH }
+  else (match sk_pow2 (- e) with Npos p -> { qnum = mz; qden = p } | N0 -> { qnum = mz; qden = XH })
+
+(* "%.9g" decimal -> rational (weights of the loaded partitions are only ever copied or erased) *)
+let sk_q_of_decimal (s : string) : q =
+  let mant, ex = match String.index_opt s 'e' with
+    | Some i -> (String.sub s 0 i, int_of_string (String.sub s (i + 1) (String.length s - i - 1)))
+    | None -> (s, 0) in
+  let neg = String.length mant > 0 && mant.[0] = '-' in
+  let mant = if neg then String.sub mant 1 (String.length mant - 1) else mant in
+  let ip, fp = match String.index_opt mant '.' with
+    | Some i -> (String.sub mant 0 i, String.sub mant (i + 1) (String.length mant - i - 1))
+    | None -> (mant, "") in
+  let digits = ip ^ fp in
+  let scale = String.length fp - ex in            (* value = digits * 10^(-scale) *)
+  let num = z_of_string ((if neg then "-" else "") ^ digits) in
+  let p10 k = N.pow (n_of_int 10) (n_of_int k) in
+  if scale <= 0 then { qnum = Z.mul num (Z.of_N (p10 (- scale))); qden = XH }
+  else (match p10 scale with Npos p -> { qnum = num; qden = p } | N0 -> { qnum = num; qden = XH })
+
+let sk_parse_part_dec (s : string) : ks_pb =
+  let p = sk_parse_part (String.concat "/" (List.mapi (fun i f -> if i = 5 then "" else f) (String.split_on_char '/' s))) in
+  let f = String.split_on_char '/' s in
+  { p with kb_vw = List.map (sk_quad sk_q_of_decimal (sk_q_of_k 0)) (split_on ';' (sk_field f 5)) }
+
+let sk_skin_of_dump (d : string) : ks_sp * ks_pinfo list option =
+  let kv = List.filter_map (fun t -> match String.index_opt t '=' with
+    | Some i -> Some (String.sub t 0 i, String.sub t (i + 1) (String.length t - i - 1)) | None -> None)
+    (String.split_on_char '~' d) in
+  let g k = try List.assoc k kv with Not_found -> "" in
+  ({ kp_np = n_of_string (g "np"); kp_parts = List.map sk_parse_part_dec (split_on '+' (g "P"));
+     kp_mapped = sk_bool (g "m"); kp_tp = List.map z_of_string (split_on ',' (g "tp")) },
+   (if g "dis" = "none" then None else Some (sk_parse_info (g "dis"))))
+
+let sk_run_filem (c : case) : string =
+  let v = sk_ver (get c "ver") in
+  let tris = sk_parse_tris (get c "tris") in
+  let sh = { kh_tris = tris; kh_hastris = sk_bool (get c "hastris"); kh_nv = n_of_string (get c "nv"); kh_bs = sk_bool (get c "bs") } in
+  let bones = List.map (fun b -> List.filter_map (fun e -> match split_on ':' e with
+      | [vi; m; ex] -> Some (n_of_string vi, sk_q_of_me m (int_of_string ex)) | _ -> None) (split_on ',' b))
+    (String.split_on_char ';' (get c "wx")) in
+  let bones = if get c "wx" = "" && get c "nb" = "0" then [] else bones in
+  let sp, dis = sk_skin_of_dump (get c "init") in
+  let k0 = { kk_sp = sp; kk_dis = dis; kk_bones = bones } in
+  let buf = Buffer.create 256 in
+  Buffer.add_string buf (sk_dump_skin k0);
+  let rec go k ops = match ops with
+    | [] -> ()
+    | o :: r ->
+      (match ks_step v sh (sk_parse_op o) k with
+       | Ok (g, k') ->
+         Buffer.add_string buf " | ";
+         (match g with
+          | Some (info, tp) -> Buffer.add_string buf ("get=1;" ^ sk_str_info info ^ ";" ^ str_zlist tp ^ " ")
+          | None -> ());
+         Buffer.add_string buf (sk_dump_skin k');
+         go k' r
+       | Fault -> Buffer.add_string buf " | FAULT"
+       | OutOfFuel -> Buffer.add_string buf " | OUTOFFUEL") in
+  go k0 (List.filter (fun o -> o <> "") (split_on '!' (get c "ops")));
+  Buffer.contents buf
+
 let sk_run_case (c : case) : string =
   let m = (try (match c.op with
     | "raw" -> sk_run_raw c
     | "hist" -> sk_run_hist c
+    | "filem" -> sk_run_filem c
     | _ -> "?") with Failure e -> "DRIVER-ERROR:" ^ e | Not_found -> "DRIVER-ERROR:notfound") in
   "M=" ^ m ^ " S=-"
 
